@@ -87,8 +87,11 @@ type FnExec struct {
 	assertHit map[int]bool
 	locals []localAlloc // non-escaping stack variables: callees cannot touch them
 	ownedRegions []*ownedRegion
+	prov        map[Term]*ownedRegion
+	inTypedArgs bool
 	quants   []quantFact
 	idxTerms []Term
+	sliceOffs []Term
 	idxSeen  map[Term]bool
 	freshObjs []*freshObj // objects allocated for this function (fresh results) whose address has not escaped
 	derived map[Term]Term // field/element address -> base address it was derived from
@@ -119,6 +122,11 @@ func (x *FnExec) noteEscape(v Val) {
 	for _, l := range v.Flatten() {
 		if l.B {
 			continue
+		}
+		if !x.inTypedArgs {
+			if r := x.provOf(l.T); r != nil {
+				r.escaped = true
+			}
 		}
 		t := l.T
 		for i := 0; i < 8; i++ {
@@ -187,6 +195,9 @@ func (x *FnExec) registerQuant(q, bv, body Term) {
 	x.ctx.Assert(Or(q, Not(substVar(body, bv, sk))))
 	for _, t := range x.idxTerms {
 		x.ctx.Assert(Implies(q, substVar(body, bv, t)))
+		for _, o := range x.sliceOffs {
+			x.ctx.Assert(Implies(q, substVar(body, bv, Add(o, t))))
+		}
 	}
 	x.quants = append(x.quants, quantFact{q, bv, body})
 	x.addIdxTerm(sk)
@@ -203,6 +214,30 @@ func (x *FnExec) addIdxTerm(t Term) {
 	x.idxTerms = append(x.idxTerms, t)
 	for _, f := range x.quants {
 		x.ctx.Assert(Implies(f.q, substVar(f.body, f.bv, t)))
+		for _, o := range x.sliceOffs {
+			x.ctx.Assert(Implies(f.q, substVar(f.body, f.bv, Add(o, t))))
+		}
+	}
+}
+
+// addSliceOffset: s[lo:] re-bases indices; facts about s are also instantiated at lo + t.
+func (x *FnExec) addSliceOffset(o Term) {
+	if _, isNum := isNumeral(o); isNum && o == "0" {
+		return
+	}
+	for _, e := range x.sliceOffs {
+		if e == o {
+			return
+		}
+	}
+	if len(x.sliceOffs) >= 6 {
+		return
+	}
+	x.sliceOffs = append(x.sliceOffs, o)
+	for _, f := range x.quants {
+		for _, t := range x.idxTerms {
+			x.ctx.Assert(Implies(f.q, substVar(f.body, f.bv, Add(o, t))))
+		}
 	}
 }
 
@@ -211,13 +246,129 @@ type ownedRegion struct {
 	base, end Term
 	elem      types.Type
 	escaped   bool
+	graph     bool            // everything a callee allocated for its result (owned(res)): all heaps, addresses [base,end)
+	skipKeys  map[string]bool // heaps of pointer-free cells whose addresses were handed to other code
+}
+
+// provOf: the owned result graph a pointer term points into, if known (address arithmetic and
+// loads from the graph keep the provenance)
+func (x *FnExec) provOf(t Term) *ownedRegion {
+	for i := 0; i < 10; i++ {
+		if r, ok := x.prov[t]; ok {
+			return r
+		}
+		b, ok := x.derived[t]
+		if !ok {
+			return nil
+		}
+		t = b
+	}
+	return nil
+}
+
+// pointerFree: values of t contain no addresses (so handing out a pointer to a t exposes
+// only cells of the returned heap keys)
+func (x *FnExec) pointerFree(t types.Type) ([]string, bool) {
+	var keys []string
+	for _, l := range x.mem.Leaves(t) {
+		if l.IsPtr {
+			return nil, false
+		}
+		keys = append(keys, l.Key)
+	}
+	return keys, true
+}
+
+// regionEscapeTyped: a value of static type t is handed to other code (call argument).
+func (x *FnExec) regionEscapeTyped(v Val, t types.Type) {
+	if len(x.prov) == 0 || t == nil {
+		return
+	}
+	if tup, ok := t.(*types.Tuple); ok {
+		if v.IsComp() && len(v.F) == tup.Len() {
+			for i := 0; i < tup.Len(); i++ {
+				x.regionEscapeTyped(v.F[i], tup.At(i).Type())
+			}
+		}
+		return
+	}
+	if isOpaque(t) {
+		return
+	}
+	switch u := t.Underlying().(type) {
+	case *types.Slice:
+		if v.IsComp() && len(v.F) == 3 {
+			if r := x.provOf(v.F[0].T); r != nil {
+				if keys, ok := x.pointerFree(u.Elem()); ok {
+					for _, k := range keys {
+						r.skipKeys[k] = true
+					}
+				} else {
+					r.escaped = true
+				}
+			}
+		}
+	case *types.Pointer:
+		if !v.IsComp() {
+			if r := x.provOf(v.T); r != nil {
+				if keys, ok := x.pointerFree(u.Elem()); ok {
+					for _, k := range keys {
+						r.skipKeys[k] = true
+					}
+				} else {
+					r.escaped = true
+				}
+			}
+		}
+	case *types.Struct:
+		if v.IsComp() && len(v.F) == u.NumFields() {
+			for i := 0; i < u.NumFields(); i++ {
+				x.regionEscapeTyped(v.F[i], u.Field(i).Type())
+			}
+		}
+	default:
+		for _, l := range v.Flatten() {
+			if !l.B {
+				if r := x.provOf(l.T); r != nil {
+					r.escaped = true
+				}
+			}
+		}
+	}
+}
+
+func resultsPointerFree(m *Mem, sig *types.Signature) bool {
+	for i := 0; i < sig.Results().Len(); i++ {
+		for _, l := range m.Leaves(sig.Results().At(i).Type()) {
+			if l.IsPtr {
+				return false
+			}
+		}
+	}
+	return true
 }
 
 // restoreOwned: after a havoc (callee or loop cut) owned regions that were never handed out and
 // (with int_values_immutable) the big integers behind math.Int values keep their content.
 func (x *FnExec) restoreOwned(st *State, old map[string]Term) {
 	for _, o := range x.ownedRegions {
-		if o.escaped {
+		if o.escaped || !o.graph {
+			continue
+		}
+		for _, k := range sortedKeys(old) {
+			if strings.HasPrefix(k, "ghost:") || o.skipKeys[k] {
+				continue
+			}
+			ob := old[k]
+			cur, ok := st.heaps[k]
+			if !ok || cur == ob || strings.HasPrefix(k, "map") {
+				continue
+			}
+			x.ctx.Assert(fmt.Sprintf("(forall ((a Int)) (! (=> (and (<= %s a) (< a %s)) (= (select %s a) (select %s a))) :pattern ((select %s a))))", o.base, o.end, cur, ob, cur))
+		}
+	}
+	for _, o := range x.ownedRegions {
+		if o.escaped || o.graph {
 			continue
 		}
 		seen := map[string]bool{}
@@ -462,6 +613,13 @@ func (x *FnExec) loadL(st *State, addr Term, t types.Type, leaves []Leaf) Val {
 			flat[i] = BoolV(term)
 		} else {
 			flat[i] = IntV(term)
+			if l.IsPtr && len(x.prov) > 0 {
+				if r := x.provOf(addr); r != nil && r.graph {
+					// pointers inside an owned result graph point into the graph (or are nil)
+					x.prov[term] = r
+					x.ctx.Assert(Or(Eq(term, "0"), And(Ge(term, r.base), Lt(term, r.end))))
+				}
+			}
 			if l.IsPtr {
 				// well-formedness of the entry heap, instantiated at this address:
 				// pointers stored in pre-existing objects point to pre-existing objects
@@ -470,7 +628,96 @@ func (x *FnExec) loadL(st *State, addr Term, t types.Type, leaves []Leaf) Val {
 			}
 		}
 	}
-	return x.mem.Shape(t, flat)
+	v := x.mem.Shape(t, flat)
+	if len(x.prov) > 0 {
+		if r := x.provOf(addr); r != nil && r.graph {
+			x.regionShape(v, t, r)
+		}
+	}
+	// well-formedness of the entry heap for slices and pointers stored in pre-existing objects:
+	// the whole backing array / referent lies in pre-existing memory
+	x.entryHeapShape(addr, t, leaves)
+	// Go's type safety: whatever is stored in memory at a location of type t is a value of t
+	// (integer ranges, 0 <= len <= cap of slices, non-negative addresses)
+	if inv := x.typeInv(v, t, nil); inv != "true" {
+		x.ctx.Assert(inv)
+	}
+	return v
+}
+
+// regionShape: slices and pointers stored inside an owned result graph refer to whole objects
+// inside the graph.
+func (x *FnExec) regionShape(v Val, t types.Type, r *ownedRegion) {
+	for _, c := range x.regionShapeTerms(v, t, r) {
+		x.ctx.Assert(c)
+	}
+}
+
+func (x *FnExec) regionShapeTerms(v Val, t types.Type, r *ownedRegion) []Term {
+	var out []Term
+	var walk func(v Val, t types.Type)
+	walk = func(v Val, t types.Type) {
+		if isOpaque(t) {
+			return
+		}
+		switch u := t.Underlying().(type) {
+		case *types.Slice:
+			if v.IsComp() && len(v.F) == 3 {
+				sz := x.mem.Size(u.Elem())
+				p, c := v.F[0].T, v.F[2].T
+				x.prov[p] = r
+				out = append(out, Or(Eq(p, "0"), And(Ge(p, r.base), Le(Add(p, Mul(c, Lit(int64(sz)))), r.end))))
+			}
+		case *types.Pointer:
+			if !v.IsComp() {
+				x.prov[v.T] = r
+				out = append(out, Or(Eq(v.T, "0"), And(Ge(v.T, r.base), Le(Add(v.T, Lit(int64(x.mem.Size(u.Elem())))), r.end))))
+			}
+		case *types.Struct:
+			if v.IsComp() && len(v.F) == u.NumFields() {
+				for i := 0; i < u.NumFields(); i++ {
+					walk(v.F[i], u.Field(i).Type())
+				}
+			}
+		}
+	}
+	walk(v, t)
+	return out
+}
+
+func (x *FnExec) entryHeapShape(addr Term, t types.Type, leaves []Leaf) {
+	pre := And(Ge(addr, "0"), Lt(addr, x.entry.alloc))
+	var walk func(t types.Type, off int)
+	walk = func(t types.Type, off int) {
+		if isOpaque(t) || off >= len(leaves) {
+			return
+		}
+		switch u := t.Underlying().(type) {
+		case *types.Slice:
+			if off+2 >= len(leaves) {
+				return
+			}
+			sz := x.mem.Size(u.Elem())
+			hp := x.initHeap(leaves[off].Key, false)
+			hc := x.initHeap(leaves[off+2].Key, false)
+			p := Sel(hp, Add(addr, Lit(int64(off))))
+			c := Sel(hc, Add(addr, Lit(int64(off+2))))
+			x.ctx.Assert(Implies(pre, Le(Add(p, Mul(c, Lit(int64(sz)))), x.entry.alloc)))
+		case *types.Pointer:
+			if sz := x.mem.Size(u.Elem()); sz > 1 {
+				hp := x.initHeap(leaves[off].Key, false)
+				p := Sel(hp, Add(addr, Lit(int64(off))))
+				x.ctx.Assert(Implies(pre, Le(Add(p, Lit(int64(sz))), x.entry.alloc)))
+			}
+		case *types.Struct:
+			o := off
+			for i := 0; i < u.NumFields(); i++ {
+				walk(u.Field(i).Type(), o)
+				o += len(x.mem.Leaves(u.Field(i).Type()))
+			}
+		}
+	}
+	walk(t, 0)
 }
 
 func pick(b bool) string {
@@ -1057,6 +1304,10 @@ func (x *FnExec) execBlock(b *ssa.BasicBlock, entrySt *State) {
 		for i := len(incs) - 1; i >= 0; i-- {
 			idx := predIndex(b, incs[i].p)
 			ev := x.value(phi.Edges[idx])
+			if len(incs) > 1 || isHeader {
+				// a merged pointer is a new term: objects tracked by address are given up
+				x.noteEscape(ev)
+			}
 			if first {
 				v = ev
 				first = false
@@ -1322,6 +1573,13 @@ func (x *FnExec) resolveLocal(name string, b *ssa.BasicBlock, st *State) (TVal, 
 }
 
 func (x *FnExec) havocLoop(h *ssa.BasicBlock, st *State, ls *LoopSpec, pre *State) {
+	// result graphs owned before the loop may be handed out in a later iteration than the
+	// one whose havoc would restore them: give them up
+	for _, o := range x.ownedRegions {
+		if o.graph {
+			o.escaped = true
+		}
+	}
 	body := x.loopBlocks(h)
 	writes := false
 	allocs := false
